@@ -222,6 +222,11 @@ R.contract(
         "stream.sender.highest_offset <= max(old(stream.sender.highest_offset), max_offset)",
         "self._remote_max_data_used == old(self._remote_max_data_used) and self._remote_max_data == old(self._remote_max_data)",
         "stream.max_stream_data_remote == old(stream.max_stream_data_remote)",
+        # C01 "again after loss": bytes are put into the packet only together with a registered delivery handler (the one
+        # that puts the range back into the pending set when the packet is lost)
+        "implies(builder._buffer.g_pos != old(builder._buffer.g_pos), len(some(builder._packet).delivery_handlers) == old(len(some(builder._packet).delivery_handlers)) + 1)",
+        "implies(builder._buffer.g_pos == old(builder._buffer.g_pos), len(some(builder._packet).delivery_handlers) == old(len(some(builder._packet).delivery_handlers)))",
+        "builder._packet == old(builder._packet)",
     ],
     prop=["C06", "C01"],
 )
